@@ -29,6 +29,10 @@ print(json.dumps({"signatures": sigs, "bin": zerv.find_zerv_bin()}), flush=True)
 for line in sys.stdin:
     call = json.loads(line)
     del captured[:]
+    if call["fn"] == "__git__":          # change the repository between two calls (stateful sequences)
+        r = real_run(call["args"], cwd=call["cwd"], stdin=subprocess.DEVNULL, stdout=subprocess.PIPE, stderr=subprocess.PIPE, text=True, env=call["env"])
+        print(json.dumps({"ok": r.stdout.strip(), "argv": None, "rc": r.returncode}), flush=True)
+        continue
     try:
         r = getattr(zerv, call["fn"])(*call.get("args", []), **call["kwargs"])
         out = {"ok": r}
@@ -144,6 +148,42 @@ def run_check(tier, seed):
                 for kw in rng.sample([x for x in kws if x not in ("stdin", "source", "repo_path")], min(len(kws) - 1, rng.randint(1, 6)) if len(kws) > 3 else rng.randint(0, len(kws))):
                     k[kw] = rng.choice(POOLS.get(kw, ["x"]) + [None])
                 calls.append((fn, [rng.choice(VERSIONS[:3])] if posn else [], k, "subset"))
+
+        # ---------------- stateful sequences: the same call repeated in one interpreter while the repository changes in between
+        seq_repo = os.path.join(root, "seqrepo")
+        gitfx.build_repo(seq_repo, [("commit", 1700000000), ("tag", "v1.0.0")])
+        genv = dict(gitfx.GIT_ENV)
+        genv.update({"GIT_AUTHOR_DATE": "1700000500 +0000", "GIT_COMMITTER_DATE": "1700000500 +0000"})
+        gcmd = lambda *a: {"fn": "__git__", "args": [gitfx.REAL_GIT] + list(a), "cwd": seq_repo, "env": genv}
+        seq = []
+        for fn, kw in (("version", {"repo_path": seq_repo}), ("flow", {"repo_path": seq_repo}), ("version", {"repo_path": seq_repo, "output_format": "pep440"})):
+            seq.append({"fn": fn, "args": [], "kwargs": kw})
+        seq.append(gcmd("commit", "-q", "--allow-empty", "-m", "second"))
+        for fn, kw in (("version", {"repo_path": seq_repo}), ("flow", {"repo_path": seq_repo}), ("version", {"repo_path": seq_repo, "output_format": "pep440"})):
+            seq.append({"fn": fn, "args": [], "kwargs": kw})
+        seq.append(gcmd("tag", "v1.1.0"))
+        for fn, kw in (("version", {"repo_path": seq_repo}), ("flow", {"repo_path": seq_repo}), ("version", {"repo_path": seq_repo, "output_format": "pep440"})):
+            seq.append({"fn": fn, "args": [], "kwargs": kw})
+        pseq, _ = start_driver()
+        st_seq = run.streams.setdefault("stateful_sequences", {"steps": 0, "python_calls": 0})
+        for step in seq:
+            pseq.stdin.write(json.dumps(step) + "\n")
+            pseq.stdin.flush()
+            ans = json.loads(pseq.stdout.readline())
+            st_seq["steps"] += 1
+            if step["fn"] == "__git__":
+                continue
+            st_seq["python_calls"] += 1
+            run.evaluations += 1
+            cli_argv = [step["fn"], "--directory", seq_repo] + ([f"--output-format={step['kwargs']['output_format']}"] if "output_format" in step["kwargs"] else [])
+            rc, out, err = run_procs([(cli_argv, None)], env={"GIT_CONFIG_GLOBAL": "/dev/null", "GIT_CONFIG_SYSTEM": "/dev/null"}, cwd=repo)[0]
+            want = out.decode("utf-8", "replace").strip()
+            if (rc == 0) != ("ok" in ans) or (rc == 0 and mask_now(ans["ok"], now) != mask_now(want, now)):
+                run.add_violation("oracle", {"stream": "stateful_sequences", "what": "after the repository changed, the same Python call no longer returns what the command line prints",
+                                             "described": {"sequence": [x["fn"] + (" " + " ".join(x["args"][1:]) if x["fn"] == "__git__" else str({k: v for k, v in x["kwargs"].items() if k != "repo_path"})) for x in seq[:seq.index(step) + 1]]},
+                                             "python": ans, "cli": [rc, want[:200]]}, True)
+        pseq.stdin.close()
+        pseq.wait()
 
         # python side, sharded
         shards = [calls[i::NPROC] for i in range(NPROC)]
